@@ -10,9 +10,11 @@ LogDoms  == {Dom("lograndint", l, u, 0, 1) : l \in 1..MaxU, u \in 1..MaxU}
             \cup {Dom("lograndint", k, k + 1, 0, 1) : k \in 1..DegMax}
 QDoms    == {Dom("qrandint", 2 * a, 2 * b, 0, 2) : a \in 0..2, b \in 0..3}
 CatDoms  == {Dom(k, 0, 0, n, 1) : k \in {"choice", "ordinal", "ordinal_nn", "ordinal_nnlog"}, n \in 1..MaxN}
-FinDoms  == {Dom(k, l, u, n, 1) : k \in {"finrange", "finrange_int", "logfinrange", "logfinrange_int"}, l \in 1..2, u \in 1..MaxU, n \in 1..MaxN}
+\* (bounds 0..2 / 1..MaxU+2: with cast_int, grid values k + 1/2 arise, e.g. finrange(1, 4, 3) = 1, 2.5, 4)
+FinDoms  == {Dom(k, l, u, n, 1) : k \in {"finrange", "finrange_int", "logfinrange", "logfinrange_int"}, l \in 0..2, u \in 1..(MaxU + 2), n \in 1..MaxN}
 ContDoms == {Dom(k, l, u, 0, 1) : k \in {"uniform", "loguniform", "reverseloguniform", "quniform"}, l \in 1..2, u \in 1..MaxU}
 Legal(d) == d.l <= d.u /\ (d.kind \in {"finrange", "finrange_int", "logfinrange", "logfinrange_int"} => (d.n = 1) = (d.l = d.u))
+                       /\ (d.kind \in {"logfinrange", "logfinrange_int"} => d.l >= 1)
                        /\ (d.kind \in {"uniform", "loguniform", "quniform"} => d.l < d.u \/ d.kind = "uniform")
                        /\ (d.kind = "reverseloguniform" => d.l < d.u /\ d.u <= 2 /\ d.l = 1)
 All == {d \in IntDoms \cup LogDoms \cup QDoms \cup CatDoms \cup FinDoms \cup ContDoms : Legal(d)}
